@@ -438,6 +438,27 @@ def _skip_fields(recipe):
     return ()
 
 
+def _bb_ill_conditioned(b):
+    """is the Barzilai-Borwein quotient of the NEXT step dominated by rounding?  (cancellation in dg = grad(x) - gradprev and
+    in <dx, dg>: relative error of the quotient above 1e-10)"""
+    pl, s = b.policy, b.solver
+    if pl.xprev is None:
+        return False
+    x, xp, gp = (np.asarray(G.np_flat(v)) for v in (s.x, pl.xprev, pl.gradprev))
+    gx = np.asarray(G.np_flat(s.f.grad(s.x)))
+    dx, dg = x - xp, gx - gp
+    # rounding of the iterates themselves (|x| eps) propagates into dx and, through the gradient (Lipschitz constant ~ L),
+    # into dg; the gradient evaluation adds its own cancellation error
+    err_dx = 4e-16 * (float(np.linalg.norm(x)) + float(np.linalg.norm(xp)))
+    lref = max(abs(float(s.L)), abs(float(b.recipe["L0"])))
+    err_dg = 4e-16 * (float(np.linalg.norm(gx)) + float(np.linalg.norm(gp)) + 1e-300) + 4.0 * lref * err_dx
+    ndg, ndx = float(np.linalg.norm(dg)), float(np.linalg.norm(dx))
+    xg = abs(float(np.real(np.sum(np.conj(dx) * dg))))
+    if ndg == 0.0 and ndx == 0.0:
+        return False  # exact tie: 0/0 on both sides
+    return err_dx > 1e-10 * ndx or err_dg > 1e-10 * ndg or (ndx * err_dg + ndg * err_dx) > 1e-10 * xg
+
+
 def run_case(ctx, model, recipe, k, rng, accessors=True, tag="gen"):
     a = recipe["alg"]
     try:
@@ -471,6 +492,7 @@ def run_case(ctx, model, recipe, k, rng, accessors=True, tag="gen"):
     moved = False
     drifted = False
     for i in range(k):
+        bb_noise = G.real_bb(recipe) and _bb_ill_conditioned(b)
         b.solver.step()
         post = b.read()
         if i == 0 and not common.allclose(post["x"], pre["x"], rtol=1e-12):
@@ -478,6 +500,12 @@ def run_case(ctx, model, recipe, k, rng, accessors=True, tag="gen"):
         if G.state_scale(post) > 1e6 or not np.isfinite(G.state_scale(post)):
             # a diverging iteration (edge / non-convex stream): rounding differences are amplified without bound
             ctx.count("discarded:diverged-trajectory")
+            break
+        if bb_noise:
+            # the BB differences of this step are rounding noise (converged trajectory, or dx orthogonal to the range of the
+            # Hessian): their quotient is numerically undefined (decision margin below tolerance, DESIGN 6.6) - thorough
+            # seed 0: |dg| ~ 1e-15, L 18.78 vs 20.81 although every operation agrees to the last bit but one
+            ctx.count("discarded:bb-quotient-at-rounding-level")
             break
         m_iter = G.state_from_wire(trace[i])
         fld_iter = None if drifted else G.states_close(post, m_iter, rtol=RTOL * 10, skip=skip)
